@@ -377,6 +377,10 @@ func init() {
 	}
 	// math/rand.Shuffle: modelled as the identity permutation (assumption A-ORDER: what is asserted does
 	// not depend on the order of the shuffled elements); natively the real shuffle runs
+	externals["(*math/rand/v2.Rand).Shuffle"] = func(p *Path, fr *Frame, fn *ssa.Function, a []Value) Value {
+		p.res.Stubs["(*math/rand/v2.Rand).Shuffle = identity (A-ORDER)"] = true
+		return nil
+	}
 	externals["math/rand.Shuffle"] = func(p *Path, fr *Frame, fn *ssa.Function, a []Value) Value {
 		if p.shuffleReal {
 			// Fisher-Yates exactly as math/rand does it, every swap index a fresh draw split into its values
